@@ -32,6 +32,9 @@ def cases(tier, seed, PROP='C01'):
         yield {'stratum': 'e2e', 'index': i, 'kind': 'e2e'}
     for i in range(40 if tier == 'quick' else 400):
         yield {'stratum': 'sul', 'index': i, 'kind': 'sul'}
+    # the label as an object of the user's own, and label fields re-assigned between two writes of one DLISFile
+    for i in range(40 if tier == 'quick' else 600):
+        yield {'stratum': 'label-object-and-rewrite', 'index': i, 'kind': 'label'}
 
 
 def _records_for(lengths, mx):
@@ -93,6 +96,32 @@ def run_case(case, PROP='C01'):
         sp['write'] = {'output_chunk_size': r.choice([mx, 2 * mx, 2 ** 16]),
                        'input_chunk_size': r.choice([None, 1, 2, 100])}
         run = harness.execute(sp)
+        lengths = [len(e[2]) for e in (run.lr_events or [])]
+        obs['e2e-file'] = 1 if run.data is not None else 0
+    elif case['kind'] == 'label':
+        r = gen.rng(seed, PROP, case['stratum'], case['index'])
+        mx = r.choice([64, 128, 256, 1000, 4096, 8192, 16384])
+        cap = mx - 8
+        sp = gen.minimal(mx, rows=r.randint(1, 4), dtype='<f4', width=r.choice([None, 3, cap // 4 + 3]))
+        sp['sul']['as_object'] = r.random() < 0.6
+        sp['sul']['set_identifier'] = gen.name(r, 'LBL', r.choice([3, 20, 60]), hc=True)
+        k = len(sp['ops'])
+        sp['ops'].append(gen.nf_op('NF'))
+        for j in range(r.randint(1, 4)):
+            sp['ops'].append(gen.nf_data_op(k, gen.payload_bytes(r, r.choice([5, cap - 3, cap + 5, 2 * cap + 1, 3 * 8192 + 7]), j)))
+        sp['write'] = {'output_chunk_size': 2 ** 16}
+        run = harness.execute(sp)
+        obs['label-as-object'] = 1 if sp['sul']['as_object'] else 0
+        if run.data is not None and r.random() < 0.6:
+            # re-assign the label's maximum record length (and maybe its identifier) and write the same DLISFile again
+            mx2 = r.choice([m for m in (64, 128, 256, 1000, 4096, 8192, 16384) if m != mx])
+            later = [{'op': 'set_sul', 'field': 'max_record_length', 'value': mx2}]
+            if r.random() < 0.5:
+                later.append({'op': 'set_sul', 'field': 'set_identifier', 'value': gen.name(r, 'NEW', 12, hc=True)})
+            first = run
+            run = harness.rewrite(first, later)
+            obs['label-reassigned-rewrite'] = 1
+            mx = mx2
         lengths = [len(e[2]) for e in (run.lr_events or [])]
         obs['e2e-file'] = 1 if run.data is not None else 0
     else:   # sul
